@@ -15,8 +15,11 @@ import (
 	"log"
 	"os"
 	"path/filepath"
+	"runtime"
 	"sort"
 	"sync"
+	"sync/atomic"
+	"syscall"
 	"time"
 
 	"github.com/usnistgov/dastard"
@@ -40,6 +43,7 @@ type Scenario struct {
 	Slow    bool   `json:"slow,omitempty"`    // abaco: 5 frames per second, so that one block spans several trigger-rate periods
 	Pulse   int    `json:"pulse,omitempty"`   // simpulse: samples per pulse (default 400; 2000 with records of 400 for edge-multi triggering)
 	Unwrap  bool   `json:"unwrap,omitempty"`  // abaco: rescale the raw data and unwrap the phase (per-channel goroutines in demuxData)
+	Drops   bool   `json:"drops,omitempty"`   // lancero: a scripted card whose 2nd, 4th, 6th and 8th read of the run begin mid-frame
 	GoPub   bool   `json:"gopub,omitempty"`   // the process itself consumes the record channels and reads every sample (race prong)
 	Seed    uint64 `json:"seed"`              // perturbation seed (race runs)
 	Ops     []Op   `json:"ops"`
@@ -180,21 +184,25 @@ func abacoScript(s Scenario, ticks int, repo string) ([]*dastard.VerifScriptedPr
 // ---- the run ----
 
 type runner struct {
-	s       Scenario
-	ctl     *dastard.VerifC17Control
-	sc      *dastard.SourceControl
-	out     Outcome
-	tags    map[string]bool
-	dir     string
-	done    <-chan struct{}
-	release func()
-	srcName string
-	h       Hooks
-	names   []string
-	reqs    chan func() error // the ONE client goroutine executes the requests in order
-	resp    chan error
-	started bool
-	ended   bool // the source has ended by itself
+	s          Scenario
+	ctl        *dastard.VerifC17Control
+	sc         *dastard.SourceControl
+	out        Outcome
+	tags       map[string]bool
+	dir        string
+	done       <-chan struct{}
+	release    func()
+	srcName    string
+	h          Hooks
+	names      []string
+	reqs       chan func() error // the ONE client goroutine executes the requests in order
+	resp       chan error
+	started    bool
+	ended      bool       // the source has ended by itself
+	writing    bool       // writing has been started and not stopped (as far as the client knows)
+	runStarted func()     // lancero with drops: tells the scripted card that the run has begun
+	dams       []*os.File // read ends of the FIFOs that stand for the data files of a stalled disk
+	fast       int32
 }
 
 func (r *runner) fail(format string, a ...interface{}) {
@@ -220,6 +228,39 @@ func (r *runner) call(name string, f func() error) bool {
 		return false
 	}
 }
+
+// slowDisk reads what is written to a FIFO at about 100 kB/s until the dam is opened, then as fast as it comes.
+func (r *runner) slowDisk(f *os.File) {
+	buf := make([]byte, 4096)
+	seen := false
+	for {
+		n, _ := f.Read(buf)
+		if n == 0 {
+			// nothing there: no writer yet (end of file on a FIFO without writer), an empty pipe, or the
+			// writer has closed the file
+			if mode := atomic.LoadInt32(&r.fast); mode == 2 || (mode == 1 && seen) {
+				if seen {
+					// give a writer that is still flushing a last chance
+					time.Sleep(5 * time.Millisecond)
+					if m, _ := f.Read(buf); m > 0 {
+						continue
+					}
+				}
+				f.Close()
+				return
+			}
+			time.Sleep(time.Millisecond)
+			continue
+		}
+		seen = true
+		if atomic.LoadInt32(&r.fast) == 0 {
+			time.Sleep(40 * time.Millisecond)
+		}
+	}
+}
+
+// undam lets the slow disk of wslow run at full speed again.
+func (r *runner) undam() { atomic.StoreInt32(&r.fast, 1) }
 
 // client is the single client thread: a long-lived goroutine, so that the race detector keeps what it
 // did (the accesses of short-lived goroutines are forgotten when their slot is re-used).
@@ -322,7 +363,9 @@ func (r *runner) start(repo string, ticks int) error {
 		}
 	case "lancero":
 		r.srcName = "LANCEROSOURCE"
-		if err := r.ctl.VerifC17LanceroNoHardware(2, 4, 1000); err != nil {
+		if r.s.Drops {
+			r.runStarted = r.ctl.VerifC17LanceroDrops(2, 4)
+		} else if err := r.ctl.VerifC17LanceroNoHardware(2, 4, 1000); err != nil {
 			return err
 		}
 	default:
@@ -387,6 +430,7 @@ func (r *runner) op(o Op) bool {
 		if err != nil {
 			return true
 		}
+		r.writing = true
 		today := time.Now().Format("20060102")
 		runs, _ := filepath.Glob(filepath.Join(r.dir, "data", today, "[0-9][0-9][0-9][0-9]"))
 		if len(runs) == 0 {
@@ -397,6 +441,46 @@ func (r *runner) op(o Op) bool {
 		run := runs[len(runs)-1]
 		for _, nm := range r.names {
 			os.Symlink("/dev/full", filepath.Join(run, fmt.Sprintf("%s_run%s_%s.ljh", today, filepath.Base(run), nm)))
+		}
+		return true
+	case "wslow":
+		// START writing LJH files on a disk that cannot keep up: the data file names of the new run directory are
+		// FIFOs (smallest pipe buffer) that the harness reads at about 100 kB/s; with "trigfast" a channel produces
+		// 800 kB/s, so pipe and file buffer fill, the file's writer goroutine spends its time blocked in write(2)
+		// and its queue of 1000 records fills up.  (A disk that stops altogether would stop the core loop at its
+		// next periodic Flush of that file.)  "wstop" and the end of the scenario let the disk run freely again.
+		// Call while no trigger is on.
+		cfg := dastard.WriteControlConfig{Request: "START", Path: filepath.Join(r.dir, "data"), WriteLJH22: true}
+		var err error
+		if !r.call(o.Op, func() error { err = sc.WriteControl(&cfg, &ok); return err }) {
+			return false
+		}
+		if err != nil {
+			return true
+		}
+		r.writing = true
+		today := time.Now().Format("20060102")
+		runs, _ := filepath.Glob(filepath.Join(r.dir, "data", today, "[0-9][0-9][0-9][0-9]"))
+		if len(runs) == 0 {
+			r.fail("wslow: no run directory")
+			return true
+		}
+		sort.Strings(runs)
+		run := runs[len(runs)-1]
+		for _, nm := range r.names {
+			p := filepath.Join(run, fmt.Sprintf("%s_run%s_%s.ljh", today, filepath.Base(run), nm))
+			if err := syscall.Mkfifo(p, 0o644); err != nil {
+				r.fail("wslow: mkfifo: %v", err)
+				return true
+			}
+			f, err := os.OpenFile(p, os.O_RDONLY|syscall.O_NONBLOCK, 0)
+			if err != nil {
+				r.fail("wslow: open fifo: %v", err)
+				return true
+			}
+			syscall.Syscall(syscall.SYS_FCNTL, f.Fd(), 1031 /* F_SETPIPE_SZ */, 4096)
+			r.dams = append(r.dams, f)
+			go r.slowDisk(f)
 		}
 		return true
 	case "selfend":
@@ -413,6 +497,19 @@ func (r *runner) op(o Op) bool {
 		cfg := dastard.AbacoSourceConfig{}
 		r.ended = true
 		return r.call(o.Op, func() error { return sc.ConfigureAbacoSource(&cfg, &ok) })
+	case "idle":
+		// the client does nothing for N ms - ONE plain sleep.  Requests and repeated short sleeps create
+		// runtime timers, and in the race detector's model every timer that fires hands the clock of the
+		// goroutine that created it to whoever receives from a timer or ticker next (e.g. a reader loop on its
+		// ticker): a client that keeps asking the core loop how far it is thereby orders the reader after the
+		// block assembly of earlier reads and hides a race between those two.
+		time.Sleep(time.Duration(o.N) * time.Millisecond)
+		return true
+	case "trigfast":
+		// an auto trigger as fast as the record length allows (every 8 samples)
+		ts := dastard.TriggerState{AutoTrigger: true, AutoDelay: 40 * time.Microsecond}
+		fts := dastard.FullTriggerState{ChannelIndices: all, TriggerState: ts}
+		return r.call(o.Op, func() error { return sc.ConfigureTriggers(&fts, &ok) })
 	case "couple":
 		if nch < 2 {
 			return true
@@ -424,7 +521,12 @@ func (r *runner) op(o Op) bool {
 		return r.call(o.Op, func() error { return sc.StopTriggerCoupling(&b, &ok) })
 	case "wstart":
 		cfg := dastard.WriteControlConfig{Request: "START", Path: filepath.Join(r.dir, "data"), WriteLJH22: o.N%2 == 0, WriteLJH3: o.N%2 == 1}
-		return r.call(o.Op, func() error { return sc.WriteControl(&cfg, &ok) })
+		var err error
+		alive := r.call(o.Op, func() error { err = sc.WriteControl(&cfg, &ok); return err })
+		if alive && err == nil {
+			r.writing = true
+		}
+		return alive
 	case "wpause":
 		cfg := dastard.WriteControlConfig{Request: "PAUSE"}
 		return r.call(o.Op, func() error { return sc.WriteControl(&cfg, &ok) })
@@ -432,7 +534,9 @@ func (r *runner) op(o Op) bool {
 		cfg := dastard.WriteControlConfig{Request: "UNPAUSE next"}
 		return r.call(o.Op, func() error { return sc.WriteControl(&cfg, &ok) })
 	case "wstop":
+		r.undam() // closing a data file waits for its writer goroutine
 		cfg := dastard.WriteControlConfig{Request: "STOP"}
+		r.writing = false
 		return r.call(o.Op, func() error { return sc.WriteControl(&cfg, &ok) })
 	case "rcomment":
 		// N > 1: repeated reads spread over a few block periods (the requests themselves never wait for
@@ -452,6 +556,31 @@ func (r *runner) op(o Op) bool {
 	case "label":
 		cfg := dastard.StateLabelConfig{Label: fmt.Sprintf("L%d", o.N), WaitForError: true}
 		return r.call(o.Op, func() error { return sc.SetExperimentStateLabel(&cfg, &ok) })
+	case "labelnw":
+		// N labels with WaitForError=false (the request replies at once, a helper goroutine takes the label
+		// through the core loop) back to back, then one that waits.  Only while writing is active: a label
+		// that cannot be set makes the helper goroutine panic, by design.  Afterwards the helpers are given
+		// time to finish (a request of the client queues behind them).
+		n := o.N
+		if n <= 0 {
+			n = 3
+		}
+		if !r.writing {
+			n = 0
+		}
+		for k := 0; k < n; k++ {
+			cfg := dastard.StateLabelConfig{Label: fmt.Sprintf("N%d_%d", o.N, k), WaitForError: false}
+			if !r.call(o.Op, func() error { return sc.SetExperimentStateLabel(&cfg, &ok) }) {
+				return false
+			}
+		}
+		cfg := dastard.StateLabelConfig{Label: fmt.Sprintf("W%d", o.N), WaitForError: true}
+		if !r.call(o.Op, func() error { return sc.SetExperimentStateLabel(&cfg, &ok) }) {
+			return false
+		}
+		time.Sleep(20 * time.Millisecond)
+		_, alive := r.blocks()
+		return alive
 	case "store":
 		n := o.N
 		if n <= 0 {
@@ -546,7 +675,10 @@ func (r *runner) op(o Op) bool {
 			if !r.call(o.Op, func() error { return sc.ConfigureMixFraction(&mfo, &ok) }) {
 				return false
 			}
-			time.Sleep(35 * time.Millisecond)
+			// wait 35 ms without creating a runtime timer (see "idle")
+			for t0 := time.Now(); time.Since(t0) < 35*time.Millisecond; {
+				runtime.Gosched()
+			}
 		}
 		return true
 	case "biglen":
@@ -579,6 +711,9 @@ func ticksFor(s Scenario) int {
 		t += 2
 		if o.Op == "wait" {
 			t += o.N
+		}
+		if o.Op == "idle" {
+			t += 2 + o.N/50
 		}
 		if o.Op == "stall" {
 			t += 12 + o.N/50
@@ -623,6 +758,9 @@ func Run(s Scenario, h Hooks, dir string, repo string) Outcome {
 		ctl.Close()
 		return r.out
 	}
+	if r.runStarted != nil {
+		r.runStarted()
+	}
 	if h.Started != nil {
 		h.Started()
 	}
@@ -645,12 +783,14 @@ func Run(s Scenario, h Hooks, dir string, repo string) Outcome {
 	if r.release != nil {
 		r.release()
 	}
+	r.undam()
 	if alive {
 		d := ""
 		var ok bool
 		r.call("stop", func() error { return r.sc.Stop(&d, &ok) })
 	}
 	ctl.Close()
+	atomic.StoreInt32(&r.fast, 2)
 	r.out.Names = r.names
 	for t := range r.tags {
 		r.out.Tags = append(r.out.Tags, t)
